@@ -156,6 +156,7 @@ def c10(A, ctx, tier):
     matrix.r_csc(A, ctx, dict(floor=40))
     storage.r_dispatch(A, ctx, dict(floor=15))
     storage.r_convert(A, ctx, dict(floor=6))
+    storage.r_solveformat(A, ctx, dict(floor=6))
     storage.r_solverstate(A, ctx, dict(floor=25))
     misc.r_sparsetest(A, ctx, dict(floor=15))
     misc.r_sibguard(A, ctx, dict(floor=8))
